@@ -58,8 +58,13 @@ from lib import stage
 from gen import scenario
 
 ID = "C11"
-LEAN_TARGETS = ["AiuVerif.Props.C11"]
+LEAN_TARGETS = ["AiuVerif.Props.C11", "AiuVerif.Props.C11Parse"]
 THEOREMS = [
+    # the compiler-log parser (Model/LogParse.lean)
+    "AiuVerif.C11.parsed_tables_wellformed",
+    "AiuVerif.C11.first_row_wins",
+    "AiuVerif.C11.stops_at_autopilot",
+    "AiuVerif.C11.outside_table_ignored",
     "AiuVerif.C11.pt_active_formula",
     "AiuVerif.C11.table_lookup_spec",
     "AiuVerif.C11.masked_name_lookup",
@@ -679,6 +684,91 @@ def oracle_on_case(ctx: Ctx, case, verbose=False):
     return res
 
 
+def log_parse_correspondence(ctx):
+    """Model/LogParse.lean vs the real parser: generated compiler-log TEXTS (markers, rows with every spacing and suffix the
+    patterns distinguish, ignored rows, duplicates, zero counts, text around the tables, the autopilot line, a second table)
+    are written to a file and read by the context object the CLI registers for `-c <log>`; compared: number of tables and,
+    per table, the kernel -> cycles entries and the kernel -> category entries in insertion order."""
+    import contextlib as _cl
+    import io as _io
+    import shutil as _sh
+    import tempfile as _tf
+    from lib.core import enc
+    rng = ctx.rng
+    kernels = ["bmm", "addmm_MatMul", "layer_norm", "gelu-2", "a_b-c9", "Total", "Totals", "x", "softmax"]
+
+    def row():
+        k = rng.choice(kernels)
+        r = rng.random()
+        name = k + ("-opCat" + rng.choice(["Bmm_fp16", "MatMul", "Other", "A-opCatB", ""]) if r < 0.55 else
+                    "-NA" if r < 0.7 else "-NAx" if r < 0.74 else "-LxPreload" if r < 0.78 else "Precompute" if r < 0.8 else
+                    "-opCatX-NA" if r < 0.83 else "")
+        cyc = rng.choice(["0", "1", "12288", "27648", "007", str(rng.randint(1, 10 ** 6))])
+        tail = rng.choice(["\n", "   \n", " \n", "", "\n", "\t\n", " x\n", "\r\n"])
+        return name + " " * rng.choice([1, 1, 3, 7]) + cyc + tail
+
+    def junk():
+        return rng.choice(["\n", "some free text\n", "Total 5\n", "bmm 12\n", "  PREFILL  \n", "\tDECODING\n", " PREFILL\n", "PREFILL \n",
+                           "  PREFILLS \n", "Ideal Clock Scaling: 1.2\n", "name with blank 12\n", "bmm -3\n", "bmm 1 2\n", " bmm 4\n",
+                           "k-opCatC 5 Ideal Clock Scaling: \n", "Ideal/Total Cycles\n"])
+
+    cases, lines = [], []
+    for k in range(ctx.n(160, 3000)):
+        text = [junk() for _ in range(rng.randint(0, 3))]
+        for t in range(rng.choice([1, 1, 1, 2, 0])):
+            text.append(rng.choice(["---  Ideal/Total Cycles  ---\n", "x Ideal/Total Cycles y\n"]))
+            for _ in range(rng.randint(0, 9)):
+                text.append(row() if rng.random() < 0.8 else junk())
+            if rng.random() < 0.9:
+                text.append("====== Perf Summary End ======\n")
+            text += [junk() if rng.random() < 0.5 else row() for _ in range(rng.randint(0, 2))]
+        if rng.random() < 0.15:
+            text.insert(rng.randint(0, len(text)), "### DSM-AutoPilot BEGIN ###\n")
+        # a file read line by line: only the last line may lack its newline
+        text = [l if l.endswith("\n") or i == len(text) - 1 else l + "\n" for i, l in enumerate(text)]
+        cases.append(text)
+        lines.append("c11 parse " + (enc("".join(text)) if "".join(text) else "%"))
+    outs = ctx.driver.ask(lines)
+    d = _tf.mkdtemp(prefix="aiuverif_c11p_")
+    try:
+        for i, (text, o) in enumerate(zip(cases, outs)):
+            p = os.path.join(d, f"log_{i % 7}.txt")
+            with open(p, "w", newline="") as fh:
+                fh.write("".join(text))
+            with _cl.redirect_stdout(_io.StringIO()):
+                reg = stage.cli_stages(["-c", p, "--freq", "560:800"])
+            cs = [r["context"] for r in reg if r["name"] == "compute_utilization"]
+            rc = cs[0].rcuctx[0] if cs else None
+            if rc is None:
+                ctx.compare("the CLI registers compute_utilization with a context for -c <log>", {"log": text}, True, False)
+                continue
+            real_tabs = [(list(t.items()), list(rc.kernel_cat_map[f].kernel_cat_map.items())) for f, t in rc.kernel_cycles.items()]
+            n_model = int(o.split(" ")[0][2:])
+            body = o.split(" ", 1)[1]
+            model_tabs = []
+            for tb in ([] if body == "%" else body.split("#")):
+                cy, ca = tb.split("|")
+                model_tabs.append(([[w.rsplit("=", 1)[0].replace("%20", " "), int(w.rsplit("=", 1)[1])] for w in cy.split(",") if w],
+                                   [[w.split("=", 1)[0].replace("%20", " "), w.split("=", 1)[1].replace("%20", " ")] for w in ca.split(",") if w]))
+            ctx.count("logparse_cases")
+            ctx.count("logparse_rows_stored", sum(len(t[0]) for t in model_tabs))
+            if len(real_tabs) != n_model:
+                # two tables with one fingerprint share a slot of the real dictionary: not comparable table by table
+                ctx.count("logparse_fingerprint_collisions")
+                if len(real_tabs) > n_model:
+                    ctx.compare("LogParse.parse vs real extract_tables: number of tables", {"log": text}, n_model, len(real_tabs))
+                continue
+            real_c = [([list(x) for x in cy], [list(x) for x in ca]) for cy, ca in real_tabs]
+            model_c = [(cy, ca) for cy, ca in model_tabs]
+            if n_model > 1:
+                real_c, model_c = sorted(real_c), sorted(model_c)     # the real tables are keyed by fingerprint
+            ctx.compare("LogParse.parse vs real RCUUtilizationContext.extract_tables: kernel -> cycles and kernel -> category "
+                        "entries of every table, in insertion order", {"log": text}, [list(map(list, t)) for t in model_c],
+                        [list(map(list, t)) for t in real_c])
+    finally:
+        _sh.rmtree(d, ignore_errors=True)
+
+
 def run(ctx: Ctx):
     cases, reals = [], []
     for case in gen_cases(ctx):
@@ -700,6 +790,7 @@ def run(ctx: Ctx):
         reals.append(res)
     if ctx.search_mode or not ctx.driver or not ctx.driver.ok:
         return
+    log_parse_correspondence(ctx)
     idx = [i for i, r in enumerate(reals) if r["err"] == "ok" and not r["perr"]]
     outs = ctx.driver.ask([model_line(cases[i], reals[i]) for i in idx])
     for i, o in zip(idx, outs):
